@@ -465,15 +465,21 @@ package otr3
 //@ define kmcPubs(k) = (k.ourKeyID != 0 ==> k.ourCurrentDHKeys.pub != nil) && (k.ourKeyID > 1 ==> k.ourPreviousDHKeys.pub != nil) && (k.theirKeyID != 0 ==> k.theirCurrentDHPubKey != nil)
 //@ define convOK(c) = c != nil && keysNonNil(c) && kmcOK(c.keys) && kmcPubs(c.keys) && (c.msgState == encrypted ==> c.version != nil)
 
+//@ define hiEnd(a, b) = val(a) > val(b)
 //@ func calculateDHSessionKeys
 //@   requires ourPubKey != nil && theirPubKey != nil && v != nil
 //@   pure
+//@   ghostlocal secbs(nil) = bytes(secbytes)
 //@   ensures [C10.session.keys.len] len(result.sendingAESKey) == 16 && len(result.receivingAESKey) == 16 && len(result.sendingMACKey) == 20 && len(result.receivingMACKey) == 20 && len(result.extraKey) == 32
 //@   ensures nonglobal(result.sendingAESKey) && nonglobal(result.receivingAESKey) && nonglobal(result.sendingMACKey) && nonglobal(result.receivingMACKey) && nonglobal(result.extraKey)
+//@   ensures [C10.session.keys.send] bytes(result.sendingAESKey) == bs_sub(hashval(1, bs_cat(bs_cat(bs_empty(), byte1(ite(hiEnd(ourPubKey, theirPubKey), byte(1), byte(2)))), secbs(nil))), 0, 16)
+//@   ensures [C10.session.keys.recv] bytes(result.receivingAESKey) == bs_sub(hashval(1, bs_cat(bs_cat(bs_empty(), byte1(ite(hiEnd(ourPubKey, theirPubKey), byte(2), byte(1)))), secbs(nil))), 0, 16)
+//@   ensures [C10.session.keys.mac] bytes(result.sendingMACKey) == sha1of(bytes(result.sendingAESKey)) && bytes(result.receivingMACKey) == sha1of(bytes(result.receivingAESKey))
+//@   ensures [C10.session.keys.extra] bytes(result.extraKey) == hashval(2, bs_cat(bs_cat(bs_empty(), byte1(255)), secbs(nil)))
 
 //@ func (*keyManagementContext).calculateDHSessionKeys
 //@   requires k != nil && v != nil && kmcPubs(k)
-//@   modifies k.macKeyHistory.items, elems(k.macKeyHistory.items)
+//@   modifies k.macKeyHistory.items, elems(k.macKeyHistory.items), secbs(nil)
 //@   ensures [C02.keys.err,C05.retired.keys,C04.window.keys] (result1 == nil) <==> (ourKeyID != 0 && k.ourKeyID != 0 && (ourKeyID == k.ourKeyID || ourKeyID == k.ourKeyID - 1) && theirKeyID != 0 && k.theirKeyID != 0 && (theirKeyID == k.theirKeyID || (theirKeyID == k.theirKeyID - 1 && k.theirPreviousDHPubKey != nil)))
 //@   ensures [C09.used.recorded] result1 == nil ==> len(k.macKeyHistory.items) == len(old(k.macKeyHistory.items)) + 1
 //@   ensures [C06.keys.reject,C19.keys.reject] result1 != nil ==> k.macKeyHistory.items === old(k.macKeyHistory.items)
@@ -1208,3 +1214,14 @@ package otr3
 //@ loop (*Conversation).processTLVs #0
 //@   invariant c != nil && nonglobal(retTLVs) && macok(nil) && ctrok(nil)
 //@   exit [C18.tlv.all,C02.tlv.all] rangeindex + 1 >= len(tlvs)
+
+// ---------------------------------------------------------------------------
+// key derivation as spec terms (C10): the hashed secret is existentially bound
+// through a ghost that the body sets to the bytes of its local `secbytes`
+// ---------------------------------------------------------------------------
+//@ ghostfield secbs BS
+
+//@ func h
+//@   requires h != nil
+//@   modifies hacc(h)
+//@   ensures [C10.h.term] fresh(result) && len(result) == hlen(h) && cap(result) >= len(result) && bytes(result) == hashval(hkind(h), bs_cat(bs_cat(bs_empty(), byte1(b)), bytes(secbytes)))
